@@ -102,4 +102,39 @@ theorem numberFrom_nums (n : Nat) (ls : List Str) :
   | nil => rfl
   | cons l ls ih => simp [numberFrom, ih, List.range'_succ]
 
+/-! ### the two line classifiers -/
+
+theorem mem_dropBlanksTabs {c : Char} {l : Str} (h : c ∈ dropBlanksTabs l) : c ∈ l := by
+  induction l with
+  | nil => simp [dropBlanksTabs] at h
+  | cons d ds ih =>
+    simp only [dropBlanksTabs] at h
+    split at h
+    · exact List.mem_cons_of_mem _ (ih h)
+    · exact h
+
+/-- a continuation line is not a declaration line -/
+theorem cont_not_decl (l : Str) (h : isCont l = true) : isDecl l = false := by
+  cases l with
+  | nil => simp [isCont, headP] at h
+  | cons c cs =>
+    simp only [isCont, headP, Bool.and_eq_true, Bool.or_eq_true, decide_eq_true_eq] at h
+    have : isLetterIC c = false := by
+      rcases h.1 with e | e <;> subst e <;> decide
+    simp [isDecl, headP, this]
+
+/-- a continuation line is not blank -/
+theorem cont_not_blank (l : Str) (h : isCont l = true) : isBlank l = false := by
+  simp only [isCont, Bool.and_eq_true] at h
+  obtain ⟨c, r, hr, hc⟩ : ∃ c r, dropBlanksTabs l = c :: r ∧ isSpace c = false := by
+    cases hd : dropBlanksTabs l with
+    | nil => rw [hd] at h; simp [headP] at h
+    | cons c r => rw [hd] at h; exact ⟨c, r, rfl, by simpa [headP] using h.2⟩
+  have hm : c ∈ l := mem_dropBlanksTabs (by rw [hr]; simp)
+  cases hb : isBlank l with
+  | false => rfl
+  | true =>
+    have := List.all_eq_true.mp hb c hm
+    rw [hc] at this; cases this
+
 end Proofs.Deb822
